@@ -8,6 +8,7 @@ import (
 
 	. "github.com/cube2222/octosql/execution"
 	"github.com/cube2222/octosql/octosql"
+	"github.com/cube2222/octosql/verifhook"
 )
 
 type OuterJoin struct {
@@ -141,6 +142,7 @@ receiveLoop:
 	for {
 		select {
 		case msg, ok := <-leftMessages:
+			verifhook.JoinRecv(0, !ok)
 			if !ok {
 				leftDone = true
 				break receiveLoop
@@ -187,6 +189,7 @@ receiveLoop:
 			// TODO: Add backpressure
 
 		case msg, ok := <-rightMessages:
+			verifhook.JoinRecv(1, !ok)
 			if !ok {
 				leftDone = false
 				break receiveLoop
@@ -256,6 +259,7 @@ receiveLoop:
 	}
 
 	for msg := range openChannel {
+		verifhook.JoinRecv(verifhookSide(leftDone), false)
 		if msg.err != nil {
 			return msg.err
 		}
@@ -280,6 +284,8 @@ receiveLoop:
 			myRecordBuffer.AddRecord(msg.record)
 		}
 	}
+
+	verifhook.JoinRecv(verifhookSide(leftDone), true)
 
 	if err := processRecordsUpTo(ctx, WatermarkMaxValue); err != nil {
 		return err
